@@ -28,3 +28,91 @@ func StringSliceArg(ss []string) value {
 	}
 	return out
 }
+
+// ImportOrderEvent is recorded by the format.Node stub: the import paths of
+// the generated file in the order they would be printed.
+type ImportOrderEvent struct{ Paths []value }
+
+// InstallFormatStub records the import block instead of printing the file.
+func InstallFormatStub(e *Engine) {
+	e.Intercepts["go/format.Node"] = func(ps *PathState, fr *frame, fn *ssa.Function, args []value) value {
+		// args: dst io.Writer, fset *token.FileSet, node any (boxed *ast.File)
+		node, _ := args[2].(iface)
+		var paths []value
+		if fp, ok := node.v.(*value); ok && fp != nil {
+			file := (*fp).(structure)
+			// ast.File fields: Doc, Package, Name, Decls, ...; find the []Decl field
+			for _, fld := range file {
+				decls, ok := fld.([]value)
+				if !ok {
+					continue
+				}
+				for _, d := range decls {
+					di, ok := d.(iface)
+					if !ok || di.t == nil || di.t.String() != "*go/ast.GenDecl" {
+						continue
+					}
+					gd := (*(di.v.(*value))).(structure)
+					for _, gf := range gd {
+						specs, ok := gf.([]value)
+						if !ok {
+							continue
+						}
+						for _, sp := range specs {
+							si, ok := sp.(iface)
+							if !ok || si.t == nil || si.t.String() != "*go/ast.ImportSpec" {
+								continue
+							}
+							is := (*(si.v.(*value))).(structure)
+							// ImportSpec{Doc, Name, Path *BasicLit, Comment, EndPos}
+							if bl, ok := is[2].(*value); ok && bl != nil {
+								lit := (*bl).(structure)
+								paths = append(paths, lit[2]) // BasicLit{ValuePos, Kind, Value}
+							}
+						}
+					}
+				}
+				break
+			}
+		}
+		ps.Record(ImportOrderEvent{Paths: paths})
+		return iface{}
+	}
+	e.Intercepts["strconv.Quote"] = func(ps *PathState, fr *frame, fn *ssa.Function, args []value) value {
+		if s, ok := args[0].(string); ok {
+			return "\"" + s + "\""
+		}
+		sy := args[0].(Sym)
+		return Sym{S: SString, T: "(str.++ \"\\u{22}\" " + sy.T + " \"\\u{22}\")"}
+	}
+}
+
+// SameValues compares two value lists term-wise; it returns the SMT
+// disequality to be refuted when symbolic, or decides concretely.
+func SameValues(a, b []value) (concreteEqual bool, neq string) {
+	if len(a) != len(b) {
+		return false, ""
+	}
+	var ts []string
+	for i := range a {
+		x, ok1 := toSym(a[i])
+		y, ok2 := toSym(b[i])
+		if !ok1 || !ok2 {
+			return false, ""
+		}
+		if x.T != y.T {
+			ts = append(ts, "(not (= "+x.T+" "+y.T+"))")
+		}
+	}
+	if len(ts) == 0 {
+		return true, ""
+	}
+	if len(ts) == 1 {
+		return false, ts[0]
+	}
+	neq = "(or"
+	for _, t := range ts {
+		neq += " " + t
+	}
+	return false, neq + ")"
+}
